@@ -1,3 +1,4 @@
+import NunVerif.Props.C04Format
 import NunVerif.Proofs.WireParse
 import NunVerif.Props.C04NewerData
 /-!
